@@ -38,6 +38,10 @@ try:
         print(f"{name}: alarms={row['alarms']} broken={list(row['broken'])}", flush=True)
         subprocess.run(["git", "-C", wt, "checkout", "--", "."], check=True)
         subprocess.run(["git", "-C", wt, "clean", "-fdq"], check=True)
+        # merge with what another run may have written meanwhile
+        cur = json.load(open(res_path)) if os.path.exists(res_path) else {}
+        cur[name] = row
+        results = cur
         json.dump(results, open(res_path, "w"), indent=1, sort_keys=True)
 finally:
     subprocess.run(["git", "-C", "/repo", "worktree", "remove", "--force", wt])
